@@ -8,7 +8,8 @@ RULE = (
     "Hypothesis draws a raw requestor script (associate, 0..2 valid DIMSE requests C-ECHO/C-STORE/C-FIND, how many responses it reads "
     "before sending A-RELEASE-RQ - i.e. before, between and during the yields of the acceptor's handler; one case in four ends with a C-GET "
     "whose 1..4 C-STORE sub-operations the raw peer answers, the A-RELEASE-RQ leaving in the same segment as its k-th C-STORE response, "
-    "k = 0..n, i.e. during the sub-operations), the acceptor handlers' result "
+    "k = 0..n, i.e. during the sub-operations; in a quarter of these the last instance cannot be encoded, so that sub-operation fails locally and the "
+    "release request follows the final C-GET response), the acceptor handlers' result "
     "counts and virtual delays, and a schedule (fifo/random/pct + preemptions). The real acceptor (AssociationServer -> Association -> DUL) runs "
     "under the E4 cooperative scheduler with virtual time. Oracle: the peer receives A-RELEASE-RP before the network timeout could fire, "
     "pynetdicom sends no A-ABORT, the acceptor association ends released with exactly one EVT_RELEASED and its socket closed. "
@@ -39,11 +40,17 @@ def check_release(ctx, sc):
     starts = [e[-1] for e in hl if e[0] == "handler"]
     yields = [e[-1] for e in hl if e[0] == "yield"]
     in_handler = bool(starts) and t_rel is not None and any(s <= t_rel for s in starts) and (any(y >= t_rel for y in yields) or (sc["meta"]["last_kind"] in ("echo", "store") and sc["meta"]["delay"] > 0 and sc["meta"]["read_before_release"] == 0) or (sc["meta"]["last_kind"] == "get" and sc["meta"]["read_before_release"] < (sc["meta"].get("n_get") or 0)))
-    classes = [f"reqs={sc['meta']['nreq']}", "last=" + str(sc["meta"]["last_kind"]), sc["schedule"]["policy"], out["how"]]
+    classes = [f"reqs={sc['meta']['nreq']}", "last=" + str(sc["meta"]["last_kind"]), sc["schedule"]["policy"], out["how"]] + (["get:last-instance-unencodable"] if sc["meta"].get("bad_last") else [])
     if in_handler:
         classes.append("release-during-handler")
     ctx.note(sc, nontrivial=in_handler, classes=classes)
     if out["how"] == "budget":
+        from engines import lifecycle as L
+
+        ll = L.livelock(out, L.time_bound(sc))
+        if ll:
+            ctx.fail("never-ends", ll, f"step budget exhausted at virtual t={rep['now']} s, far beyond every timeout: threads still alive {[(t['name'], t['state'], t['label'], t.get('where')) for t in rep['threads'] if t['state'] != 'done']}; peer received {_k(peer)}; meta {sc['meta']}")
+            return
         ctx.inconclusive += 1
         return
     excs = [t for t in rep["threads"] if t["exc"]]
@@ -105,6 +112,9 @@ def strategy(ctx):
         n_get = draw(st.integers(1, 4))
         k_get = draw(st.integers(0, n_get))
         delay_get = draw(st.sampled_from([0.3, 0.6]))
+        bad_last = get and draw(st.integers(0, 3)) == 0  # the last instance cannot be encoded: that sub-operation fails locally
+        if bad_last:
+            k_get = n_get  # the peer answers the n-1 sub-operations it sees and releases when the final C-GET response arrives
         script = [["send", R.ref_encode(SC.RAW_RQ_GET if get else SC.RAW_RQ)], ["recv_pdu", 5]]
         read_before = 0
         if get:
@@ -134,12 +144,12 @@ def strategy(ctx):
         policy = draw(st.sampled_from(["fifo", "random", "random", "pct"]))
         pre = draw(st.lists(st.tuples(st.integers(0, 1500), st.integers(0, 5)), max_size=6))
         return {
-            "timeouts": {"acse": 3, "dimse": 3, "network": 8},
+            "timeouts": {"acse": 3, "dimse": 3, "network": 8, "connection": 5},
             "max_steps": 20000,
-            "acceptor": {"kind": "pynetdicom", "handlers": dict({"find": {"n": n_find, "delay": delay}, "echo": {"delay": delay}, "store": {"delay": delay}}, **({"get": {"n": n_get, "delay": delay_get}} if get else {}))},
+            "acceptor": {"kind": "pynetdicom", "handlers": dict({"find": {"n": n_find, "delay": delay}, "echo": {"delay": delay}, "store": {"delay": delay}}, **({"get": {"n": n_get, "delay": delay_get, "bad_last": bad_last}} if get else {}))},
             "requestors": [{"kind": "raw", "script": script}],
             "schedule": {"policy": policy, "seed": draw(st.integers(0, 10**6)), "preemptions": [list(p) for p in pre]},
-            "meta": {"nreq": nreq, "last_kind": kinds[-1] if kinds else None, "n_find": n_find, "delay": delay_get if get else delay, "read_before_release": read_before, "n_get": n_get if get else None},
+            "meta": {"nreq": nreq, "last_kind": kinds[-1] if kinds else None, "n_find": n_find, "delay": delay_get if get else delay, "read_before_release": read_before, "n_get": n_get if get else None, "bad_last": bad_last},
         }
 
     return sc()
